@@ -478,10 +478,17 @@ def r20p(R):
         m = app.methods[mname]
         cfg = A.cfg(m)
         rets = [r for r in cfg.return_nodes() if r.ret_expr is not None]
-        if len(rets) != 1 or not isinstance(rets[0].ret_expr, ast.Name):
-            R.check(m, mname, False, '%s no longer returns one variable' % mname)
+        gets = [n for n in cfg.nodes if n.kind == 'stmt' and isinstance(n.ast, ast.Assign)
+                and isinstance(n.ast.value, ast.Call)
+                and isinstance(n.ast.value.func, ast.Attribute)
+                and n.ast.value.func.attr == 'get' and n.ast.value.args
+                and A.try_fold(n.ast.value.args[0], m) == key
+                and isinstance(n.ast.targets[0], ast.Name)]
+        if len(gets) != 1 or not rets:
+            R.check(m, mname, False, 'the manifest\'s %r is not read with '
+                    '.get(%r, <empty>) into a local' % (key, key))
             continue
-        var = rets[0].ret_expr.id
+        var = gets[0].ast.targets[0].id
         stores = [n for n in cfg.nodes if n.kind == 'stmt'
                   and isinstance(n.ast, (ast.Assign, ast.AugAssign))
                   and any(isinstance(t, ast.Name) and t.id == var for t in (
@@ -509,13 +516,21 @@ def r20p(R):
                     if not any(t in cfg.reachable_from([x for x, _l in s_.succs])
                                for s_ in stores if s_ is not given[0]):
                         tests.append((t, lab))
-        bad = []
-        for n in stores:
-            if n is given[0]:
-                continue
-            if not any(n.id not in reachable_without_edges(
-                    cfg, cfg.entry, {(t.id, lab)}) for t, lab in tests):
-                bad.append(n)
+        def derived_only(n):
+            # reachable only through a "nothing given" edge
+            return any(n.id not in reachable_without_edges(
+                cfg, cfg.entry, {(t.id, lab)}) for t, lab in tests)
+        bad = [n for n in stores if n is not given[0] and not derived_only(n)]
+        # what is returned when something was given is that value itself
+        wrong_ret = [r for r in rets if not derived_only(r)
+                     and not (isinstance(r.ret_expr, ast.Name)
+                              and r.ret_expr.id == var)]
+        if wrong_ret and not bad:
+            R.check(m, '%s: the given %s is returned as it is' % (mname, key),
+                    False, 'when the manifest gives a %s, %s returns `%s` '
+                    'instead of the given value' % (
+                        key, mname, norm(wrong_ret[0].ret_expr)[:50]))
+            continue
         R.check(m, '%s: %d derivation step(s), all under "no %s given"'
                 % (mname, len(stores) - 1, key), not bad,
                 'the %s the manifest gives is modified (%s) although it is '
